@@ -61,6 +61,18 @@ func sceneWithdraw(o WdOpts) {
 		payee = vf.Addr("withdrawAddr", 20)
 		k.SetWithdrawAddress(ctx, o1, payee)
 	}
+	// the withdrawn provider's own account and the other owner may have withdrawal addresses of their own
+	// (a provider account can be the owner of other providers): neither is where O1's earnings go
+	if vf.Bool("p0HasOwnAddr") {
+		a := vf.Addr("p0addr", 20)
+		vf.Assume(vf.And(!a.Equals(payee), !p[0].Equals(o1))) // (a provider that is its own owner has the owner's record)
+		k.SetWithdrawAddress(ctx, p[0], a)
+	}
+	if vf.Bool("o2HasAddr") {
+		a := vf.Addr("o2addr", 20)
+		vf.Assume(!a.Equals(payee))
+		k.SetWithdrawAddress(ctx, o2, a)
+	}
 	vf.SetModuleBalance(types.RequestAccName, escrow)
 	balPayee0 := vf.Amount("balPayee")
 	vf.SetBalance(payee, balPayee0)
